@@ -14,7 +14,7 @@ def run(ctx):
                 "small capacities to fixpoint, capacities 200/256 depth-bounded from seeds of length 0,1,N-1,N")
     ctx.assumptions += [
         "libstdc++ std::basic_string is the reference; resize(n) is modelled as resize(n, ' ') (documented blank fill)",
-        "arguments never alias the target; calls that are undefined for std::string itself (pop_back/front on empty, iterators outside [begin,end]) are not in the alphabet",
+        "arguments that alias the target ARE in the alphabet (the string as its own operand, pointers and iterators into its own buffer) wherever std::basic_string defines the call; calls that are undefined for std::string itself (pop_back/front on empty, iterators outside [begin,end]) are not in the alphabet",
         "embedded NUL only through explicitly counted overloads and never in the strlen layout; stream extraction that fails (no token) is not judged",
         "wchar_t is not instantiated: xbasic_fixed_string<wchar_t> with a stored size is ill-formed on this tree (1u << 32) and the strlen layout only supports char",
         "silent policy: instances whose result would exceed N or whose position is invalid are caller-precondition violations and are skipped",
